@@ -3,6 +3,7 @@
 -/
 import UtreexoVerif.Driver.Arith
 import UtreexoVerif.Driver.Forest
+import UtreexoVerif.Driver.Schedule
 import UtreexoVerif.Driver.Serial
 import UtreexoVerif.Driver.Partial
 import UtreexoVerif.Driver.ProofOps
@@ -38,6 +39,10 @@ def handleLine (line : String) : M Unit := do
   | "alias" :: rest => handleAlias line rest
   | "later" :: rest => handleLater line rest
   | "aliasinfo" :: rest => handleAliasInfo line rest
+  | "sttl" :: rest => handleSttl line rest
+  | "sched" :: rest => handleSched line rest
+  | "gpp" :: rest => handleGpp line rest
+  | "msched" :: rest => handleMsched line rest
   | "ser" :: rest => handleSer line rest
   | ["enc", tag, res] => count ("enc:" ++ tag) line (res == "accepted")
   | "session" :: _ => pure ()   -- start-of-scenario marker (bin/check cuts replay excerpts there)
